@@ -331,7 +331,10 @@ func (c *semCtx) eval(e ast.Expr) semVal {
 		return c.eval(e.X)
 	case *ast.Ident:
 		if e.Name == "nil" {
-			return c.unsupported("nil")
+			if _, isNil := c.info.Uses[e].(*types.Nil); isNil {
+				return semVal{Sort: "Nil"}
+			}
+			return c.unsupported("a user-declared nil")
 		}
 		if v, ok := c.state[e.Name]; ok {
 			return v
@@ -467,9 +470,42 @@ func (c *semCtx) binary(e *ast.BinaryExpr) semVal {
 	return c.binop(e.Op, x, y)
 }
 
+// nilness returns the term "v is nil" for slices, maps and pointers to arrays.
+func (c *semCtx) nilness(v semVal) (string, bool) {
+	switch v.Sort {
+	case "Slice", "Map":
+		if v.Nil != "" {
+			return v.Nil, true
+		}
+		if strings.HasSuffix(v.Len, "_len") {
+			n := strings.TrimSuffix(v.Len, "_len") + "_isnil"
+			first := c.sh.decls[n] == ""
+			c.sh.declare(n, "Bool")
+			if first {
+				c.sh.assert("(=> " + n + " (= " + v.Len + " 0))")
+			}
+			return n, true
+		}
+	}
+	return "", false
+}
+
 func (c *semCtx) binop(op token.Token, x, y semVal) semVal {
 	if x.Sort == "Bad" || y.Sort == "Bad" {
 		return semVal{Sort: "Bad"}
+	}
+	if (x.Sort == "Nil") != (y.Sort == "Nil") && (op == token.EQL || op == token.NEQ) {
+		other := x
+		if x.Sort == "Nil" {
+			other = y
+		}
+		if t, ok := c.nilness(other); ok {
+			if op == token.NEQ {
+				t = "(not " + t + ")"
+			}
+			return semVal{Sort: "Bool", T: t}
+		}
+		return c.unsupported("nil compared with %s", other.Sort)
 	}
 	if x.Sort == "Bytes" && y.Sort == "String" || x.Sort == "String" && y.Sort == "Bytes" {
 		return c.unsupported("mixed string/bytes operands")
